@@ -72,12 +72,12 @@ func matchAny(names, types []string, pats [][]Part) bool {
 
 // expectation computes, for every resource of the realm before exclusion, whether the reference
 // says it is gone, and whether no demand is made (index / fk made of an excluded column).
-func expectation(before []Res, patterns []string, schemaScope bool, sname string) (excluded, gone, either []bool) {
+func expectation(before []Res, patterns []string, schemaScope bool, sname string) (excluded, gone, either, cascade []bool) {
 	pats := make([][]Part, len(patterns))
 	for i, p := range patterns {
 		pats[i] = parsePattern(p)
 	}
-	excluded, gone, either = make([]bool, len(before)), make([]bool, len(before)), make([]bool, len(before))
+	excluded, gone, either, cascade = make([]bool, len(before)), make([]bool, len(before)), make([]bool, len(before)), make([]bool, len(before))
 	for i, r := range before {
 		n, t := r.Path, r.Types
 		if schemaScope {
@@ -91,16 +91,62 @@ func expectation(before []Res, patterns []string, schemaScope bool, sname string
 	for i, r := range before { // parents precede children
 		gone[i] = excluded[i] || (r.Parent >= 0 && gone[r.Parent])
 	}
+	// Indexes and foreign keys built on an excluded column. A pattern that excludes a column takes them along as far as
+	// its last part's selector admits them (no selector: all; the first pattern in list order that excludes the column decides) — whatever loader produced the table; they are then
+	// expected to be gone like an excluded resource ("cascade"). When only a selector-restricted pattern excludes the
+	// column the index / foreign key keeps a dangling column: no demand either way.
+	rel := func(r Res) ([]string, []string, bool) {
+		n, t := r.Path, r.Types
+		if schemaScope {
+			if t[0] != "schema" || n[0] != sname || len(n) < 2 {
+				return nil, nil, false
+			}
+			n, t = n[1:], t[1:]
+		}
+		return n, t, true
+	}
 	for i, r := range before {
 		if gone[i] || (r.Type() != "index" && r.Type() != "fk") {
 			continue
 		}
 		for j, c := range before {
-			if c.Parent == r.Parent && c.Type() == "column" && excluded[j] {
-				for _, n := range r.Cols {
-					either[i] = either[i] || n == c.Path[len(c.Path)-1]
+			if c.Parent != r.Parent || c.Type() != "column" || !excluded[j] {
+				continue
+			}
+			in := false
+			for _, n := range r.Cols {
+				in = in || n == c.Path[len(c.Path)-1]
+			}
+			if !in {
+				continue
+			}
+			either[i] = true
+			cn, ct, ok := rel(c)
+			for _, p := range pats {
+				if ok && matchAny(cn, ct, [][]Part{p}) {
+					last := p[len(p)-1]
+					admits := !last.Sel
+					for _, ty := range last.Types {
+						admits = admits || ty == r.Type()
+					}
+					if admits {
+						cascade[i] = true
+					}
+					// patterns are applied one after the other: the first one that excludes the column removes it
+					// together with what its selector admits; later patterns no longer see the column
+					break
 				}
 			}
+		}
+	}
+	for i := range before {
+		if cascade[i] {
+			either[i] = false
+		}
+	}
+	for i, r := range before { // children of nothing: indexes / fks have no children, but keep the invariant
+		if cascade[i] || (r.Parent >= 0 && gone[r.Parent]) {
+			gone[i] = true
 		}
 	}
 	return
@@ -114,6 +160,7 @@ type exclResult struct {
 	Excluded []string // keys the reference says are excluded (self, not descendants)
 	Gone     int
 	Either   int
+	Cascade  int
 	Total    int
 	TooLong  bool
 	Err      string
@@ -151,7 +198,7 @@ func judge(before, after []Res, err error, patterns []string, schemaScope bool, 
 		res.add("excl|unexpected-error", "unexpected error: "+err.Error())
 		return
 	}
-	excluded, gone, either := expectation(before, patterns, schemaScope, sname)
+	excluded, gone, either, cascade := expectation(before, patterns, schemaScope, sname)
 	got := map[string]string{}
 	for _, r := range after {
 		got[r.Key] = r.Desc
@@ -165,6 +212,12 @@ func judge(before, after []Res, err error, patterns []string, schemaScope bool, 
 		d, ok := got[r.Key]
 		lvl := fmt.Sprintf("depth%d", len(r.Path)-1)
 		switch {
+		case cascade[i] && !excluded[i] && !(r.Parent >= 0 && gone[r.Parent]):
+			res.Gone++
+			res.Cascade++
+			if ok {
+				res.add("excl|dangling-"+r.Type()+"-of-excluded-column|"+lvl, fmt.Sprintf("%s is built on a column excluded by %q (no selector, or one that admits a %s) but is still present, referring to the removed column", r.Key, patterns, r.Type()))
+			}
 		case gone[i]:
 			res.Gone++
 			if ok {
@@ -410,6 +463,45 @@ func fixRefs(t Tbl) Tbl {
 	}
 	t.Chks = ch
 	return t
+}
+
+// sqliteFixtures adds to a generated SQLite realm what must be there at every seed: a column of the first table that
+// is at once indexed and a foreign-key child (the SQLite inspection links columns to their foreign keys but not to
+// their indexes), and — for every other database — a first table named like the schema ("main"), plus a table named
+// like one of its columns, so that patterns whose first part equals the schema name mean different things in schema
+// and realm scope. fixedPatterns are the pattern sets run on every such database.
+func sqliteFixtures(r Rlm, i int) (Rlm, [][]string, [][]string) {
+	s := &r.Schs[0]
+	t0 := &s.Tbls[0]
+	hasT := func(n string) bool {
+		for _, t := range s.Tbls {
+			if strings.EqualFold(t.N, n) {
+				return true
+			}
+		}
+		return false
+	}
+	if i%2 == 0 && !hasT("main") {
+		old := t0.N
+		t0.N = "main"
+		for ti := range s.Tbls {
+			for fi := range s.Tbls[ti].FKs {
+				if s.Tbls[ti].FKs[fi].RefT == old {
+					s.Tbls[ti].FKs[fi].RefT = "main"
+				}
+			}
+		}
+	}
+	t0.Cols = append(t0.Cols, Col{N: "fx", T: "int", Null: true}, Col{N: "legacy", T: "txt", Null: true})
+	t0.Idx = append(t0.Idx, Idx{N: "fx_i", Cols: []string{"fx"}}, Idx{N: "fx_ia", Cols: []string{t0.Cols[0].N, "fx"}})
+	t0.FKs = append(t0.FKs, FK{N: "fx_f", Cols: []string{"fx"}, RefT: t0.N, RefCols: []string{t0.Cols[0].N}})
+	if i%4 == 0 && !hasT("legacy") {
+		s.Tbls = append(s.Tbls, Tbl{N: "legacy", Cols: []Col{{N: "id", T: "int"}, {N: "fx", T: "int", Null: true}}})
+	}
+	n := t0.N
+	schemaSets := [][]string{{"main." + n}, {"main.*"}, {"main.legacy"}, {n + ".fx"}, {"*.fx"}, {n + ".fx[type=column|index]"}, {n + ".f?", n + ".fx_i[type=fk]"}}
+	realmSets := [][]string{{"main.main." + n}, {"main.main.*"}, {"main.main.legacy"}, {"main." + n + ".fx"}, {"main.*.fx"}, {"*." + n + ".fx[type=column|fk]"}, {"main.legacy"}}
+	return r, schemaSets, realmSets
 }
 
 func genClass(rng *rand.Rand, ch byte) string {
